@@ -274,6 +274,9 @@ STAGES = {
                 AUTHTYPES='{"NOAUTH", "PLAIN", "AUTODISCOVER"}', AUTHLISTS='{{"PLAIN", "LOGIN"}}')),
             ('port-policy-by-setters', 'Session', cfg(OP='"DialAndSend"', N='1', MAXR='1', BUDGET='1', CAPSETS='{{}}', CLASSES='{"refuse", "p5"}', VARIANTS='{"setters"}',
                 POLICIES='{"mandatory", "opportunistic", "none"}', FALLBACK='{TRUE}', STARTTLSADV='BOOLEAN', HANDSHAKES='{"ok"}')),
+            # a server behind a UNIX domain socket that offers no STARTTLS: the TLS policy of the Client applies all the same
+            ('unix-socket-host', 'Session', cfg(OP='"DialAndSend"', N='1', MAXR='1', BUDGET='1', CAPSETS='{{}}', CLASSES='{"p5"}', VARIANTS='{"unixsock"}',
+                POLICIES='{"mandatory", "opportunistic", "none"}', STARTTLSADV='{FALSE}')),
             # a configuration history: the port policy (opportunistic: 587, fallback 25) first, the TLS policy of the scenario afterwards through
             # SetTLSPolicy / SetTLSPortPolicy - the fallback port of the first step is still there; the primary port is refused
             ('policy-set-after-port-policy', 'Session', cfg(OP='"DialAndSend"', N='1', MAXR='1', BUDGET='1', CAPSETS='{{}}', CLASSES='{"refuse", "p5"}', VARIANTS='{"stalefallback"}',
